@@ -439,6 +439,9 @@ fn main() {
                     J::Obj(small).to_json(&mut t);
                     writeln!(js, "{}", t).unwrap();
                 }
+                // a later case may kill the process (stack overflow): what is done must be on disk
+                tok.flush().unwrap();
+                js.flush().unwrap();
             }
         }
         // text <strings.txt> : one string per line as comma separated code points
